@@ -3,6 +3,7 @@
   `add_alt` / `remove_alt` as a pointwise "bump" of the touched cells (with multiplicities), and
   the resulting closed forms of `addAlt` / `removeAlt` below the saturation limit.
 -/
+import PyProb.Lemmas.GuardCanon
 import PyProb.Model.Bloom
 
 namespace PyProb.Cbf
